@@ -96,6 +96,12 @@ def _wave(cfg, rec, npdt=np.float64, keep=None):
     """The `wave` argument: a name, the 2-tuple of arrays (cfg['wave_form'] == 'tuple') or (with cfg['wave_row']) the
     4-tuple of separate column / row filters. Arrays are made in the precision the module is built in and, when `keep`
     is a list, also handed to the caller (who owns them and may reuse them afterwards)."""
+    if cfg.get('wave_form') == 'object':
+        # a custom pywt.Wavelet object: every such object in the pool carries the same name, the banks differ
+        wc = pywt.Wavelet(cfg['wave'])
+        a, b = cfg.get('fb_scale', [1.0, 1.0])
+        return pywt.Wavelet('custom', filter_bank=[np.array(wc.dec_lo) * a, np.array(wc.dec_hi) * b,
+                                                   np.array(wc.rec_lo) / a, np.array(wc.rec_hi) / b])
     if not cfg.get('wave_row') and cfg.get('wave_form') != 'tuple':
         return cfg['wave']
     wc = pywt.Wavelet(cfg['wave'])
